@@ -33,7 +33,7 @@ while read commit prop; do
   reset
 done < $MX/canaries.txt
 # seeds
-for s in C19-1:C19 C04-1:C04 C07-1:C07 C05-2:C05 C18-1:C18 C13-1:C13 C13-2:C13; do
+for s in C19-1:C19 C04-1:C04 C07-1:C07 C05-2:C05 C18-1:C18 C13-1:C13 C13-2:C13 C11-3:C11 C02-5:C02 C16-1:C16 C14-3:C14; do
   d=${s%%:*}; c=${s##*:}
   git -C $MX/repo apply /verif/seeded/$d/patch.diff 2>/dev/null || { echo "skip  seed $d"; continue; }
   expect "seed $d -> $c alarms" 1 $(run $c); reset
